@@ -52,10 +52,32 @@ EDIT_TRACE = {
     "timeout": {"quick": 600, "thorough": 3000},
 }
 
+REL_STRINGS = {
+    "kind": "tlc_replay", "name": "rel_strings", "module": "MCRelStrings.tla", "cfg": "MCRelStrings.cfg", "stage": "rel_strings",
+    "consts": {"quick": {"N": 3, "M": 5}, "thorough": {"N": 4, "M": 7}},
+    "workers": {"quick": 8, "thorough": 16}, "timeout": {"quick": 300, "thorough": 3000},
+    "henv": {"quick": {"VERIF_MAPS": 3}, "thorough": {"VERIF_MAPS": 4}},
+}
+def rel_docs(stage, name):
+    return {"kind": "tlc_replay", "name": name, "module": "MCRelDocs.tla", "cfg": "MCRelDocs.cfg", "stage": stage,
+            "consts": {"quick": {"Big": "FALSE"}, "thorough": {"Big": "TRUE"}},
+            "workers": {"quick": 8, "thorough": 16}, "timeout": {"quick": 300, "thorough": 3000},
+            "henv": {"quick": {"VERIF_MAPS": 3}, "thorough": {"VERIF_MAPS": 3}}}
+REL_DOCS = rel_docs("rel_docs", "rel_fields")
+REL_WRAP = rel_docs("rel_wrap", "rel_wrap")
+REL_LRT = rel_docs("rel_lossy_rt", "rel_lossy_values")
+REL_SAT = {
+    "kind": "tlc_replay", "name": "sat_table", "module": "MCRelSat.tla", "cfg": "MCRelSat.cfg", "stage": "rel_sat",
+    "consts": {"quick": {"Full": "FALSE"}, "thorough": {"Full": "TRUE"}},
+    "workers": {"quick": 4, "thorough": 16}, "timeout": {"quick": 300, "thorough": 3000},
+}
+REL_ASSUMPTION = ("relation character predicates induce the 18-class partition (delimiters, identifier characters, blank, LF, other); "
+                  "checked with several representatives per class")
+
 CLASS_ASSUMPTION = ("character predicates induce the 8-class partition {K,D,C,H,S,N,R,U} "
                     "(checked by several representatives per class incl. multi-byte and control characters, not proved for all scalar values)")
 
-HOOK_COMMITS = []
+HOOK_COMMITS = ["6ffee28"]
 
 PROPS = {
     "C01": {
@@ -109,6 +131,56 @@ PROPS = {
         "level_note": "bounded as C04; comment lines attached to the removed paragraph (same run of non-blank lines) may go with it",
         "stages": [EDIT_EDGES, EDIT_TRACE],
         "rule": "as C04",
+        "exhaustive": {"quick": True, "thorough": True},
+        "assumptions": [],
+    },
+    "C09": {
+        "claimed": True,
+        "technique": "TLA+ relation lexer + recursive-descent parser machine model-checked by TLC (fidelity, termination bound); every behaviour replayed on the real tolerant/strict/single-entry/single-relation readers",
+        "level_text": "spec/Rel.tla models the lexer and the lossless parser control point by control point; TLC proves for every class string up to the bound (substvars allowed or not) and every generated well-formed field that each token enters the tree exactly once and that the parser terminates within a linear step bound; each behaviour is replayed on Relations::parse_relaxed (both modes), Relations/Entry/Relation::from_str under several concretisations, comparing printed text, strict-iff-no-error and the substring clause; the syntax tree (via the cfg-guarded dump hook) and the error count are compared with the machine (drift only).",
+        "level_note": "bounded: all strings over the 18-class alphabet up to length 3 (4 thorough), up to 5 (7) over the 9 classes that open nested groups; plus generated fields",
+        "stages": [REL_STRINGS, REL_DOCS],
+        "rule": "every class string over the relation alphabet up to the bound x allow_substvar, and every generated field; distinct = distinct (class string, mode) of length >= 2",
+        "exhaustive": {"quick": True, "thorough": True},
+        "assumptions": [REL_ASSUMPTION],
+    },
+    "C10": {
+        "claimed": True,
+        "technique": "TLA+ generator of Policy 7.1 fields whose tokens are tagged with their role, so the reading is known by construction; refinement to the parser machine + accessor model checked by TLC; fields replayed on both real readers",
+        "level_text": "spec/MCRelDocs.tla generates fields from abstract structure (option lattice of qualifier, operator, epoch, architecture list with negations, profile groups; alternatives, entries, empty entries, substitution variables) and layout choices; TLC proves the parser machine accepts each and that the accessor structure equals the reading read off the tags; every field is concretised by role and both real readers are compared with that reading component by component.",
+        "level_note": "bounded generator (<= 3 entries x <= 2 alternatives, 5 comma layouts x 3 pipe layouts x 3 inner layouts); blanks only where Policy clearly allows them",
+        "stages": [REL_DOCS],
+        "rule": "every generated field (distinct token sequences), 3 concretisations each",
+        "exhaustive": {"quick": True, "thorough": True},
+        "assumptions": [REL_ASSUMPTION, "debversion parses and prints the concrete version strings faithfully"],
+    },
+    "C12": {
+        "claimed": True,
+        "technique": "TLA+ definition of satisfaction (Sat) enumerated by TLC into the complete decision table within bounds; every row replayed on all evaluators and lookup forms",
+        "level_text": "spec/MCRelSat.tla defines Sat over fields of entries of alternatives with operators and version ranks; TLC enumerates every field shape x operator x installed assignment and prints the expected answer per field and per entry; each row is evaluated by the lossless Relations/Entry evaluators and the lossy Relations/Relation evaluators through the map, closure and single-pair lookups, along two concrete version chains (epochs, revisions, '~').",
+        "level_note": "bounded: <= 2 entries x <= 2 alternatives over 2 packages, installed in {absent, lower, equal, higher}; debversion's ordering of the two chains is trusted",
+        "stages": [REL_SAT],
+        "rule": "complete decision table: field shape x (package, operator, required rank) per alternative x installed rank per package; distinct = distinct (field, assignment)",
+        "exhaustive": {"quick": True, "thorough": True},
+        "assumptions": ["debversion orders the concrete chains as Policy 5.6.12 says"],
+    },
+    "C13": {
+        "claimed": True,
+        "technique": "generated fields (TLA+ generator, reading by construction) run through the real wrap_and_sort; output judged against the canonical form, multiset equality with the constructed reading, sortedness and idempotence",
+        "level_text": "every field generated by spec/MCRelDocs.tla is normalised by the real Relations::wrap_and_sort (and Entry::wrap_and_sort); the output must parse strictly, denote the same multiset of entries/alternatives with all components (negations, epochs, profile groups, substitution variables) as the reading known by construction, equal the canonical rendering of its own content, be sorted by name and be a fixed point.",
+        "level_note": "the sort key beyond the package name is not pinned by the property and not judged; canonical rendering is implemented in the harness from the property's literal format",
+        "stages": [REL_WRAP],
+        "rule": "every generated field, 3 concretisations",
+        "exhaustive": {"quick": True, "thorough": True},
+        "assumptions": [],
+    },
+    "C14": {
+        "claimed": True,
+        "technique": "value space of lossy relations enumerated by the TLA+ generator; print / lossy re-read / lossless read / conversions compared on the real code",
+        "level_text": "the constructed readings of spec/MCRelDocs.tla (all optional-part subsets, 0..2 architectures with negation, 0..2 profile groups of 1..2 possibly negated terms) are assembled as lossy values; the printed text must re-read to an equal value, be read as the same structure by the lossless reader, and lossy->lossless->lossy conversion must be the identity with identical text.",
+        "level_note": "bounded value space as C10",
+        "stages": [REL_LRT],
+        "rule": "every generated structure as a lossy value; distinct = distinct structures",
         "exhaustive": {"quick": True, "thorough": True},
         "assumptions": [],
     },
